@@ -7,5 +7,5 @@ rsync -a --delete /verif/kani/ $S/src/kani_verif/
 cp /verif/contracts/post.rs $S/src/kani_verif/post.rs
 python3 -c "import sys; sys.path.insert(0,'/verif'); import checks; checks.write_instances('$S/src/kani_verif', checks.ALL)"
 cd $S
-CARGO_NET_OFFLINE=true cargo kani -Z mem-predicates -Z stubbing -Z loop-contracts --only-codegen 2>&1 | grep -E "^error" -A12 | head -40
+if ! CARGO_NET_OFFLINE=true cargo kani -Z mem-predicates -Z stubbing -Z loop-contracts --only-codegen > /var/tmp/avx/build.log 2>&1; then grep -E "^error" -A12 /var/tmp/avx/build.log | head -60; exit 1; fi
 printf "%s\n" "$@" | xargs -P $J -I{} bash -c 'cd '$S' && CARGO_NET_OFFLINE=true timeout ${TMO:-1200} cargo kani -Z mem-predicates -Z stubbing -Z loop-contracts --harness {} 2>&1 | python3 /verif/tools/filter.py | grep -v "^Complete"'
